@@ -25,6 +25,18 @@ NA = {
 }
 
 CHECKS = {
+ "C03": dict(
+   category="fault_enumeration",
+   text="Only the command-line clause of C03 is decided (the library-level clause is a pure function of the circuit and outside this technique; see DESIGN.md §4 C03). `quizx opt` is driven end to end on generated QASM files: in-process through -o, as the shipped binary on stdout, and as the shipped binary under injected input faults (missing file, directory, empty, torn at a statement boundary, torn mid token) and output faults (ENOSPC, torn write via RLIMIT_FSIZE, missing directory, directory target, stdout on /dev/full, broken pipe). Fault-free runs must exit 0 with a program that parses back, keeps the qubit count, uses only h/rz/cz/cx/swap and is projectively equal to the input by the harness's gate-matrix simulator; under faults success is accepted only with a complete program equivalent to the program the tool actually saw.",
+   design_ref="DESIGN.md §2.5, §4 C03",
+   note="Trusted: harness gate-matrix simulator and QASM printer/parser (self-tested), /dev/full, RLIMIT_FSIZE and pipe semantics. Bounds: <=5 qubits, <=30 gates, phase denominators <=16. The default gflow extractor after each of the three strategies is exercised on every circuit, but the library-level quantifier (extractor modes, backends) is NOT claimed.",
+   technique="fault injection around the real CLI (in-process and child process) with a gate-matrix reference simulator as oracle; seeded scenario generation, shrinking + replay files"),
+ "C06": dict(
+   category="exploration",
+   text="`quizx sim` is run in-process with the ambient-RNG seam (every Bernoulli draw of the sampler is a recorded decider decision), the fork-join seam (--parallel schedules and worker counts) and the Bernoulli observer installed, on generated QASM files, with every query kind, method and --parallel setting, each query repeated under another method and the other --parallel setting. Oracles from the harness's state-vector simulator: printed probability/expectation; S1 every printed sample has non-zero Born probability; S2 every (prefix, p) handed to a Bernoulli draw equals P(next=1 | prefix) - decidable pointwise only because the simulator owns the randomness; S3 chi-square of decider-driven samples at 1e-12. Malformed argv must be an error, not a panic or an answer. The shipped binary runs as a child for stdout/exit-status and under the same input/output fault kinds as C03.",
+   design_ref="DESIGN.md §4 C06",
+   note="Trusted: harness gate-matrix simulator (exact ring for Clifford+T, f64 otherwise), bit i of a printed string = qubit i. Bounds: <=4 qubits quick / 5 thorough, <=14 gates, <=16 shots (400/2000 in the statistics sub-batch). Known finding recorded in known_findings.json: 'No ts!' panic for non-Clifford phases other than odd multiples of pi/4.",
+   technique="deterministic simulation: seeded decider behind the sampler's RNG seam and the fork-join seam, state-vector reference model (support, pointwise conditional-probability and chi-square oracles), fault injection around the real CLI, shrinking + replay files"),
  "C05": dict(
    category="exploration",
    text="Seeded simulation of the decomposer: one decider owns the generated closed Clifford+T diagram and configuration and, through cfg-gated seams, every ambient RNG draw of the random drivers, every RandomState key of the dynamic-T driver, and for parallel executions the worker count (1..16), the execution order of the tasks of every (nested) fork-join region and their workers. Every scenario runs sequentially and in parallel under two schedules; results are compared exactly (Z[omega]/2^k) with an independent evaluator of the original diagram, every decomposition step and component split is checked for conservation while the run proceeds, and sequential/parallel results are compared with each other. Sub-batches: saved Clifford terms of open diagrams, and apply_decomp on embedded sites. Sampling, not enumeration.",
@@ -52,8 +64,6 @@ CHECKS = {
 }
 
 PENDING = {
- "C03": "claimed by DESIGN.md (CLI clause) but its check is not built yet at this commit; not claimed until it is",
- "C06": "claimed by DESIGN.md but its check is not built yet at this commit; not claimed until it is",
 }
 
 def main():
